@@ -7,9 +7,13 @@ use ipc_channel::ipc::{self, IpcReceiver, IpcReceiverSet, IpcSelectionResult, Ip
 pub struct C06S;
 pub static C06: C06S = C06S;
 
-fn member_sender(tx: IpcSender<Vec<u8>>, member: u32, script: Vec<Value>, hold: bool) {
+fn member_sender(tx: IpcSender<Vec<u8>>, member: u32, script: Vec<Value>, hold: bool, crash: Option<(u32, u64)>) {
     let mut q = 0u32;
-    for op in script {
+    let last_send = script.iter().rposition(|op| op[0] == "send");
+    for (oi, op) in script.into_iter().enumerate() {
+        if let (Some((pid, k)), true) = (crash, Some(oi) == last_send) {
+            sim::arm_crash(pid, k);
+        }
         match op[0].as_str().unwrap_or("") {
             "sleep" => sim::sleep_ns(op[1].as_u64().unwrap_or(0).min(1_000_000) * 1000),
             "send" => {
@@ -24,6 +28,10 @@ fn member_sender(tx: IpcSender<Vec<u8>>, member: u32, script: Vec<Value>, hold: 
             },
             _ => {},
         }
+    }
+    if let Some((pid, _)) = crash {
+        sim::disarm_crash(pid);
+        sim::crash_now();
     }
     if hold {
         hist::log("hold", member as i64, 0, 0, "");
@@ -87,6 +95,9 @@ impl Scenario for C06S {
                 "hold": r.chance(1, 6),
                 // 0 = added before the selector starts selecting, 1 = added between select calls
                 "add": if r.chance(1, 3) { 1 } else { 0 },
+                // the sender lives in another sim-process, which may die at the k-th system call of its last burst
+                "proc": !inproc && nmem <= 12 && r.chance(1, 4),
+                "crash_at": if r.chance(1, 2) { json!(r.below(9)) } else { Value::Null },
             }));
         }
         let mut faults = vec![];
@@ -119,7 +130,13 @@ impl Scenario for C06S {
                 multi = true;
             }
             let hold = m["hold"].as_bool().unwrap_or(false);
-            sim::spawn(&format!("sender{}", i), None, move || member_sender(tx, i as u32 + 1, script, hold));
+            if m["proc"].as_bool().unwrap_or(false) && !cfg!(feature = "inproc") && n <= 12 {
+                let pid = 10 + i as u32;
+                let crash = m["crash_at"].as_u64().map(|k| (pid, k));
+                super::util::spawn_process(&format!("sender{}", i), pid, tx, move |tx: IpcSender<Vec<u8>>| member_sender(tx, i as u32 + 1, script, hold, crash));
+            } else {
+                sim::spawn(&format!("sender{}", i), None, move || member_sender(tx, i as u32 + 1, script, hold, None));
+            }
             if m["add"].as_u64().unwrap_or(0) == 1 {
                 late.push((i as u32 + 1, rx));
             } else {
@@ -211,6 +228,14 @@ impl Scenario for C06S {
         for e in evs.iter().filter(|e| e.op == "drop.inv") {
             drop_inv.insert(e.a, e.seq);
         }
+        // a sender whose sim-process died: gone from the crash on, certainly gone once reaped
+        let mut reaped: std::collections::BTreeSet<i64> = Default::default();
+        for e in evs.iter().filter(|e| e.op == "crash" && e.a >= 10) {
+            drop_inv.insert(e.a - 10 + 1, e.seq);
+        }
+        for e in evs.iter().filter(|e| e.op == "crash.reaped" && e.a >= 10) {
+            reaped.insert(e.a - 10 + 1);
+        }
         let sent_ok = |m: i64| -> Vec<i64> { evs.iter().filter(|e| e.op == "send.ok" && e.a == m).map(|e| e.b).collect() };
         let mut max_batch = 0;
         let mut added_with_traffic = 0u64;
@@ -286,7 +311,7 @@ impl Scenario for C06S {
                 let sender_blocked = blocked.iter().any(|b| b.label == format!("sender{}", m - 1));
                 if (next_seq[m] as usize) < ok.len() {
                     out.viol("lost-wakeup:select", format!("selector {} although member {} has {} successfully sent messages of which only {} were reported", if done { "finished" } else { "blocked in select for ever" }, m, ok.len(), next_seq[m]));
-                } else if drop_inv.contains_key(m) && evs.iter().any(|e| e.op == "drop.ret" && e.a == *m) && !closed.contains(m) && !sender_blocked {
+                } else if drop_inv.contains_key(m) && (evs.iter().any(|e| e.op == "drop.ret" && e.a == *m) || reaped.contains(m)) && !closed.contains(m) && !sender_blocked {
                     out.viol("lost-closure:select", format!("selector {} although member {}'s sender is gone and its closure was never reported", if done { "finished" } else { "blocked in select for ever" }, m));
                 }
             }
